@@ -427,6 +427,8 @@ func runScenario(t *testing.T, sc scenario, sf, af string, progress *hx.Log) []e
 	return rec.evs
 }
 
+var stuckScenarios int32
+
 func TestGNet(t *testing.T) {
 	out := hx.Out(t)
 	scenFile := os.Getenv("VERIF_GN_SCEN")
@@ -468,7 +470,19 @@ func TestGNet(t *testing.T) {
 		go func(i int) {
 			defer wg.Done()
 			defer func() { <-sem }()
+			if atomic.LoadInt32(&stuckScenarios) >= 6 {
+				// the route strands data (each such scenario costs its 30 s deadlines): what is
+				// recorded so far already shows it, skip the rest instead of running into the test timeout
+				progress.Emit(event{"k": scens[i].K, "at": "skipped"})
+				return
+			}
 			results[i] = runScenario(t, scens[i], sf, af, progress)
+			for _, e := range results[i] {
+				if ok, isBool := e["ok"].(bool); (e["ev"] == "quiesce" && isBool && !ok) || e["ev"] == "sdtimeout" {
+					atomic.AddInt32(&stuckScenarios, 1)
+					break
+				}
+			}
 		}(i)
 	}
 	wg.Wait()
